@@ -20,7 +20,7 @@ ASSUMPTIONS = ["Bezier tolerance: rounding bound 1024*eps*(|positions| under the
 CONFIGS = ['scipy']
 BUDGET = {'quick': 30000, 'thorough': 400000}
 REQUIRED = ['pre:queried', 'pre:reversed_twice', 'pre:transformed_before', 'op:translated', 'op:rotated', 'op:scaled', 'op:scaled_xy', 'op:transform', 'kind:A', 'kind:path', 'path:closed',
-            'M:shear', 'M:reflect_diag', 'M:nonuniform', 'M:rotation', 'arc_nonuniform_scaled_refused']
+            'M:shear', 'M:reflect_diag', 'M:nonuniform', 'M:rotation', 'M:near_identity']
 
 EPS = 2.0 ** -52
 TG = [0.0, 0.125, 0.25, 0.375, 0.5, 0.625, 0.75, 0.875, 1.0]
@@ -32,7 +32,7 @@ def matrix_s(draw):
     n = draw(st.integers(1, 3))
     fs = []
     for _ in range(n):
-        k = draw(st.sampled_from(['rotation', 'uniform', 'nonuniform', 'reflect_x', 'reflect_y', 'reflect_diag', 'shear', 'translation', 'identity']))
+        k = draw(st.sampled_from(['rotation', 'uniform', 'nonuniform', 'reflect_x', 'reflect_y', 'reflect_diag', 'shear', 'translation', 'identity', 'near_identity']))
         if k == 'rotation':
             fs.append([k, draw(st.one_of(st.sampled_from([90.0, 180.0, 270.0, 45.0, 30.0, -60.0]), gen.floats_in(-360.0, 360.0)))])
         elif k == 'uniform':
@@ -43,6 +43,9 @@ def matrix_s(draw):
             fs.append([k, draw(gen.floats_in(-2.0, 2.0)), draw(st.integers(0, 1))])
         elif k == 'translation':
             fs.append([k, draw(gen.coord()), draw(gen.coord())])
+        elif k == 'near_identity':
+            # a matrix that differs from the identity by a relative 1e-12..1e-5 in one respect (still invertible, still not the identity)
+            fs.append([k, draw(st.integers(0, 3)), draw(st.sampled_from([1e-5, 8e-6, 1e-6, 1e-7, 1e-9, 1e-12])) * draw(st.sampled_from([1, -1]))])
         else:
             fs.append([k])
     return fs
@@ -73,6 +76,15 @@ def build_matrix(fs):
                 A[1, 0] = f[1]
         elif k == 'translation':
             A[0, 2], A[1, 2] = f[1], f[2]
+        elif k == 'near_identity':
+            if f[1] == 0:
+                A[0, 0] = A[1, 1] = 1 + f[2]
+            elif f[1] == 1:
+                A[:2, :2] = [[math.cos(f[2]), -math.sin(f[2])], [math.sin(f[2]), math.cos(f[2])]]
+            elif f[1] == 2:
+                A[0, 2] = f[2]
+            else:
+                A[0, 1] = f[2]
         M = M.dot(A)
     return M
 
@@ -203,14 +215,17 @@ def check(case, ctx):
         trivial = sx == 1 and esy == 1
         if has_arc and sy is not None and sy != sx:
             # must be refused, never silently wrong
+            # refused, or else right: "never silently wrong" (a result that is returned goes through the point-wise comparison)
             try:
                 res = curve.scaled(*args, **kw)
             except Exception:
                 ctx.count('arc_nonuniform_scaled_refused')
                 ctx.nontrivial()
                 return
-            ctx.fail('scaled/arc_nonuniform_not_refused', 'scaled(%r,%r) of a curve containing an Arc returned %r instead of raising' % (sx, sy, res))
-        res = ctx.lib('scaled/' + kind, curve.scaled, *args, **kw)
+            ctx.count('arc_nonuniform_scaled_accepted')
+            cond = max(abs(sx), abs(esy)) / min(abs(sx), abs(esy))
+        else:
+            res = ctx.lib('scaled/' + kind, curve.scaled, *args, **kw)
     else:
         M = build_matrix(case['M'])
         for fct in case['M']:
